@@ -95,3 +95,17 @@ Theorem C17_every_copy_equals_its_original :
 Proof. exact (every_copy_equals_its_original). Qed.
 Print Assumptions C17_every_copy_equals_its_original.
 
+(* a default-constructed serial buffer is the all-zero image whatever the memory held (its byte array has an
+   initialiser in the source read on this run) *)
+Theorem C17_fresh_serial_buffer_ignores_garbage :
+  forall (cfg : config) (g : bytes), buffer_over cfg g = buffer_clear (serial_bits cfg).
+Proof. exact (fresh_buffer_ignores_garbage). Qed.
+Print Assumptions C17_fresh_serial_buffer_ignores_garbage.
+
+(* catch-all over the facts regenerated on this run: no scalar member of any record a machine is made of lacks an
+   initialiser *)
+Theorem C17_every_member_is_initialised :
+  uninitialised_fields = [].
+Proof. exact (every_member_is_initialised). Qed.
+Print Assumptions C17_every_member_is_initialised.
+
